@@ -1,17 +1,30 @@
 #!/bin/sh
-# tools/try_refactor.sh <dir with patch.diff + meta.json> [check ids...]  - apply a behaviour-preserving refactoring to /repo,
-# run the quick checks (default: the properties named in meta.json), undo it.  Every check must stay silent (exit 0).
+# tools/try_refactor.sh <dir with patch.diff + meta.json> [check ids...]  - apply a behaviour-preserving refactoring, run the
+# repository's tests and the quick checks (default: the properties named in meta.json), undo it.  Every check must stay
+# silent (exit 0).  The refactoring is applied to /repo itself, or - when meta.json names a "base" commit because the patch
+# was written for the tree before a later commit of this work (e.g. before the verification hooks went into queue.py) -
+# to a scratch worktree of that commit, which the checks then read through HAIWAY_SRC.
 set -u
 D="$(cd "$1" && pwd)"; shift
 HERE="$(cd "$(dirname "$0")/.." && pwd)"
-[ -n "$(git -C /repo status --porcelain)" ] && { echo "/repo is not clean"; exit 3; }
 IDS="$*"
 [ -z "$IDS" ] && IDS=$(/venv/bin/python -c "import json; print(' '.join(json.load(open('$D/meta.json'))['properties']))")
-git -C /repo apply "$D/patch.diff" || { echo "patch does not apply"; exit 3; }
+BASE=$(/venv/bin/python -c "import json; print(json.load(open('$D/meta.json')).get('base', ''))")
 SCRATCH=$(mktemp -d)
-export VERIF_EVIDENCE_DIR="$SCRATCH"
-trap 'git -C /repo checkout -- . ; rm -rf "$SCRATCH"' EXIT
-T=$(cd /repo && /venv/bin/python -m pytest -q -p no:cacheprovider tests 2>&1 | tail -1)
+export VERIF_EVIDENCE_DIR="$SCRATCH/ev"; mkdir -p "$SCRATCH/ev"
+if [ -n "$BASE" ]; then
+  TREE="$SCRATCH/tree"
+  git -C /repo worktree add -q --detach "$TREE" "$BASE" || { echo "cannot create a worktree of $BASE"; exit 3; }
+  trap 'git -C /repo worktree remove --force "$TREE" 2>/dev/null; git -C /repo worktree prune; rm -rf "$SCRATCH"' EXIT
+  export HAIWAY_SRC="$TREE/src"
+  echo "(applied to a scratch worktree of $BASE)"
+else
+  [ -n "$(git -C /repo status --porcelain)" ] && { echo "/repo is not clean"; exit 3; }
+  TREE=/repo
+  trap 'git -C /repo checkout -- . ; rm -rf "$SCRATCH"' EXIT
+fi
+git -C "$TREE" apply "$D/patch.diff" || { echo "patch does not apply"; exit 3; }
+T=$(cd "$TREE" && PYTHONPATH="$TREE/src" /venv/bin/python -m pytest -q -p no:cacheprovider tests 2>&1 | tail -1)
 echo "tests with refactoring: $T"
 rc_all=0
 for id in $IDS; do
